@@ -217,7 +217,7 @@ def stepLine (legacy : Bool) (g : Graph) (line : String) : Graph × String :=
     | _, _ => (g, "bad-op")
   | "search" :: rest =>
     match parseSearch rest with
-    | some q => (g, showOutcome (search legacy g q))
+    | some q => if g.wfB then (g, showOutcome (search legacy g q)) else (g, "model-wf-violated")
     | none => (g, "bad-op")
   | _ => (g, "bad-op")
 
